@@ -201,16 +201,39 @@ def stop_value(m, f, rule, is_visit, site=None):
         rule.ok(site, '%d visit site(s); stop value propagated on all %d exit state(s)' % (n, len(res.exits)), loc)
 
 
+def field_addr_pred(m, f, struct, field):
+    """predicate on an address operand of f: does it denote <struct>.<field> of some object -- directly, or through a
+    pointer parameter of a private function to which every caller passes the address of that field"""
+    alias = set()
+    if f.linkage == 'internal':
+        callers = []
+        for g in f.module.defined():
+            callers += [(g, c) for c in g.calls(f.name)]
+        for k, a in enumerate(f.args):
+            if not (a.get('ty') or '').endswith('*') or not callers:
+                continue
+            if all(k < len(c.o) and isinstance(c.o[k], str) and resolve_addr(g, c.o[k]).fsteps[-1:] == ((struct, field),) for g, c in callers):
+                alias.add('$%d' % k)
+
+    def pred(ref):
+        a = resolve_addr(f, ref)
+        if a.fsteps[-1:] == ((struct, field),):
+            return True
+        return not a.steps and a.coff == 0 and isinstance(a.root, str) and a.root in alias
+    return pred
+
+
 def count_once(m, f, rule, struct, field, site=None):
     """every path of f performs exactly one store  field := field +/- 1  on a parameter-rooted object"""
     bad = set()
     stored_vals = set()
+    is_field = field_addr_pred(m, f, struct, field)
 
     def is_adj(ins):
         if ins.op != 'store':
             return 0
         a = resolve_addr(f, ins.o[1])
-        if a.fsteps[-1:] != ((struct, field),) or not (isinstance(a.root, str) and a.root.startswith('$')):
+        if not is_field(ins.o[1]) or not (isinstance(a.root, str) and a.root.startswith('$')):
             return 0
         base, step = unit_step(f, ins.o[0])
         if not step:
@@ -220,7 +243,7 @@ def count_once(m, f, rule, struct, field, site=None):
         if ld is None:
             return 0
         if ld.op == 'load':
-            if resolve_addr(f, ld.o[0]).fsteps[-1:] != ((struct, field),):
+            if not is_field(ld.o[0]):
                 return 0
         elif ld.ref not in stored_vals:
             # (store-to-load forwarding) the operand may be the value a previous store put there
@@ -228,7 +251,7 @@ def count_once(m, f, rule, struct, field, site=None):
         return step
 
     for i in f.all_insts():
-        if i.op == 'store' and resolve_addr(f, i.o[1]).fsteps[-1:] == ((struct, field),) and isinstance(i.o[0], str):
+        if i.op == 'store' and is_field(i.o[1]) and isinstance(i.o[0], str):
             stored_vals.add(i.o[0])
     adjs = [i for i in f.all_insts() if is_adj(i)]
     if not adjs:
